@@ -829,6 +829,24 @@ func (c *Ctx) queueEffects(entry *ssa.Function) ([]queueEffect, string) {
 							if jc, _ := CallOf(a); jc != nil && Callee(jc) == "strings.Join" && own[bindArg(Arg(jc, 0), bind)] {
 								own[a] = true
 							}
+							// … and so is the empty key written out where the caller's list was
+							// found empty (what joining it yields)
+							if ks, isK := ConstStr(a); isK && ks == "" {
+								for _, fct := range FactsAtInstr(x) {
+									rel := fct.Rel()
+									if rel.Op != token.EQL {
+										continue
+									}
+									if n, isN := ConstInt(rel.Y); !isN || n != 0 {
+										continue
+									}
+									if lc, ok := rel.X.(*ssa.Call); ok {
+										if bi, isB := lc.Call.Value.(*ssa.Builtin); isB && bi.Name() == "len" && own[bindArg(lc.Call.Args[0], bind)] {
+											own[a] = true
+										}
+									}
+								}
+							}
 							nb[p] = a
 						}
 					}
